@@ -110,11 +110,20 @@ def registrations(res, wd, delays, m):
         s.stop()
 
 
-def outstanding(res, wd, K):
+class Ws_client:
+    """the same interface over ONE WebSocket connection that stays open (as the Emacs client's does)"""
+    def __init__(self, s):
+        self.c = WsClient(s.port, timeout=20.0)
+
+    def call(self, method, params, timeout=None):
+        return self.c.call(method, params)
+
+
+def outstanding(res, wd, K, client=None):
     """K conversions that are never confirmed pile up; conversions issued in between, and the very first one, are still confirmable"""
     s = start(wd)
     try:
-        c = Server_client(s)
+        c = (client or Server_client)(s)
         first, acked = None, 0
         marks = {k for k in (1, 2, 127, 128, 129, 255, 256, 257, 1023, 1024, 1025, K) if k <= K}
         for k in range(1, K + 1):
@@ -172,6 +181,8 @@ def run(tier, seed):
             total += scenario(res, wd, dl, c, n, tag)
             scen.append({"delays": dl, "clients": c, "pairs": n, "what": tag})
         total += outstanding(res, wd, 1100 if tier == "quick" else 5000)
+        shutil.rmtree(os.path.join(wd, "user"), ignore_errors=True)
+        total += outstanding(res, wd, 300 if tier == "quick" else 2000, client=Ws_client)      # the same on one long-lived WebSocket connection
         regs = registrations(res, wd, {"updater.before_dict_lock": 5, "updater.before_pref_lock": 2}, 40 if tier == "quick" else 200)
     finally:
         cleanup(wd)
